@@ -66,13 +66,18 @@ def _jaqal_import_module_relative(mod_name, import_path):
 
     spec = _jaqal_find_spec_relative(top_level, import_path)
     module = importlib.util.module_from_spec(spec)
-    sys.modules[mod_name] = module
-    _relative_modules.add(mod_name)
+    sys.modules[top_level] = module
+    _relative_modules.add(top_level)
     try:
         spec.loader.exec_module(module)
+        # Submodules are found through the package that was just loaded
+        submod_name = top_level
+        for part in module_heirarchy:
+            submod_name = f"{submod_name}.{part}"
+            module = importlib.import_module(submod_name)
     except BaseException:
         # Leave nothing behind from a module that failed to load
-        _forget_relative_module(mod_name)
+        _forget_relative_module(top_level)
         raise
 
     return module
@@ -106,19 +111,23 @@ def jaqal_import(
     if not mod_name:
         raise ImportError("Module name may not be empty")
 
-    module = sys.modules.get(mod_name)
+    top_level = mod_name.split(".")[0]
 
     if relative:
-        if module is not None and mod_name not in _relative_modules:
+        if top_level in sys.modules and top_level not in _relative_modules:
             # Reloading would unload a module somebody else imported (even
             # jaqalpaq itself), and later calls would see the damage.
             raise ImportError(
                 f"Cannot import {mod_name} relatively: the name belongs to a module that is already imported"
             )
-    elif mod_name in _relative_modules:
+        if reload_module:
+            # Start from the same state whatever was imported relatively before
+            _forget_relative_module(top_level)
+    elif top_level in _relative_modules:
         # A leftover of an earlier relative import is not an installed module
-        _forget_relative_module(mod_name)
-        module = None
+        _forget_relative_module(top_level)
+
+    module = sys.modules.get(mod_name)
 
     if module and reload_module:
         if full_reload:
